@@ -1,0 +1,19 @@
+//go:build verif
+
+package ignore
+
+import "sort"
+
+// VerifVCSDirectoryNames returns the names that vcsDirectoryNames maps to
+// true, sorted. Verification hook (add-only, build tag verif): exports the
+// table so that the Coq model's copy can be compared with it on every run.
+func VerifVCSDirectoryNames() []string {
+	var names []string
+	for name, is := range vcsDirectoryNames {
+		if is {
+			names = append(names, name)
+		}
+	}
+	sort.Strings(names)
+	return names
+}
